@@ -91,6 +91,9 @@ func hxPanicLabel(r any) string {
 	case string:
 		s = v
 	}
+	if i := hxIndexStr(s, "out of range"); i >= 0 {
+		s = s[:i+12]
+	}
 	b := []byte(s)
 	var out []byte
 	for _, c := range b {
